@@ -168,5 +168,6 @@ def run(cx):
         a1 = strip_identity(arg_origin(ts[0], 1, o))
         ob.require(term_has_call(a0, "anemo::config::Config::connect_timeout"), "timeout/duration", f"timeout duration is {show(a0)}", task.path)
         ob.require(a1[0] == "agg" and a1[1] == "coroutine" and a1[2] == b.path, "timeout/future", f"timeout future is {show(a1)}", task.path)
+        check_ms_getter(ob, prog, "anemo::config::Config::connect_timeout", "connect_timeout_ms")
         check_callers(ob, prog, TASK, [f"{CM}::ConnectionManager::handle_incoming"], exact=1, what="handle_incoming_task")
         check_callers(ob, prog, f"{CM}::ConnectionManager::handle_incoming", [f"{CM}::ConnectionManager::start"], exact=1, what="handle_incoming")
